@@ -59,6 +59,87 @@ class CollProperty:
             yield dict(sc=q)
 
 
+def gen_late_bound(rng):
+    """switch_ whose held input is a structural (non-peered) bundle {a, b} fed by two scripted scalars; every key change creates a
+    new branch whose bundle input binds its fields one after another - in a cycle later than the producers' ticks, the fields
+    carrying different last-modified-times"""
+    import ho
+    end = rng.choice((12, 18, 26))
+    kw = ho.gen_ts_writer(rng, 1, end, values=[1, 2, 1, 2, 1], dense=rng.random() < 0.3)
+    aw = ho.gen_ts_writer(rng, 2, end, dense=rng.random() < 0.3)
+    bw = ho.gen_ts_writer(rng, 3, end, dense=rng.random() < 0.3)
+    return dict(late=1, sc=dict(window=(0, end), writers=[kw, aw, bw], stmts=["switch 10 key=1 cases=1:BProbe1,2:BProbe2 ba=2 bb=3", "cons 11 10"]))
+
+
+def check_late_bound(sc, events):
+    """every reading a branch takes of its structural bundle input: fields hold the producers' current values and validity; at
+    every node modified <=> last-modified-time == now; the bundle is modified exactly when a field is and its last-modified-time
+    is the latest of its valid fields' (never older than a child's); the branch is evaluated at every tick of a field and at
+    every activation, and at no other time"""
+    import ho
+    stats = dict(probe_readings=0, consumer_readings=0, probe_quiet_cycle_readings=1, probe_late_bound_activations=0, probe_fields_with_different_stamps_at_binding=0)
+    w = {x["id"]: x for x in sc["writers"]}
+    if not all(i in w for i in (1, 2, 3)):
+        return None, stats
+    keys = dict(ho.ts_history(w[1]))
+    ha, hb = dict(ho.ts_history(w[2])), dict(ho.ts_history(w[3]))
+    bp = {}
+    for e in events:
+        if e["k"] == "BP":
+            bp[e["t"]] = e
+    cur_key = None
+    va = vb = None
+    la = lb = None
+    active = False
+    for t in range(sc["window"][1]):
+        if t in ha:
+            va, la = ha[t], t
+        if t in hb:
+            vb, lb = hb[t], t
+        act = t in keys and keys[t] != cur_key
+        if act:
+            cur_key = keys[t]
+            active = True
+            stats["probe_late_bound_activations"] += 1
+            if la is not None and lb is not None and la != lb:
+                stats["probe_fields_with_different_stamps_at_binding"] += 1
+        e = bp.get(t)
+        must = active and (act or t in ha or t in hb)
+        if e is None:
+            if must and (va is not None or vb is not None or act):
+                return ("consumer_not_evaluated", "t=%d the branch below the structural bundle was not evaluated although %s" % (t, "it was activated" if act else "a field ticked")), stats
+            continue
+        if not must:
+            return ("evaluated_without_cause", "t=%d the branch was evaluated although no field ticked and no key change happened" % t), stats
+        stats["probe_readings"] += 1
+        stats["consumer_readings"] += 1
+        if e["k"] is not None and cur_key is not None and e.get("k") != "BP":
+            pass
+        i = e["i"]
+        ch = i.get("ch", {})
+        for name, val, last in (("a", va, la), ("b", vb, lb)):
+            c = ch.get(name, {})
+            if c.get("v") != (1 if val is not None else 0):
+                return ("valid_history", "t=%d field %s reads valid=%s, its producer %s" % (t, name, c.get("v"), "has ticked" if val is not None else "has never ticked")), stats
+            if val is not None and c.get("val") != val:
+                return ("value_vs_producer", "t=%d field %s reads %s, its producer holds %s" % (t, name, c.get("val"), val)), stats
+            if val is not None and bool(c.get("m")) != (c.get("lmt") == t):
+                return ("modified_vs_lmt", "t=%d field %s reads modified=%s with last_modified_time %s" % (t, name, c.get("m"), c.get("lmt"))), stats
+            if val is not None and last == t and not c.get("m"):
+                return ("modified_history", "t=%d field %s does not read modified in the cycle in which its producer ticked" % (t, name)), stats
+            if val is not None and not act and last != t and c.get("m"):
+                return ("modified_history", "t=%d field %s reads modified although its producer did not tick (no activation in this cycle)" % (t, name)), stats
+        kids = [ch[n] for n in ("a", "b") if ch.get(n, {}).get("v")]
+        if kids:
+            if bool(i["m"]) != any(k["m"] for k in kids):
+                return ("parent_child_modified", "t=%d the bundle reads modified=%d, its fields read %s (a fixed-shape parent is modified exactly when a child is)" % (t, i["m"], [k["m"] for k in kids])), stats
+            if i["lmt"] != max(k["lmt"] for k in kids):
+                return ("parent_child_lmt", "t=%d the bundle's last_modified_time is %s, its fields' are %s" % (t, i["lmt"], [k["lmt"] for k in kids])), stats
+            if bool(i["m"]) != (i["lmt"] == t):
+                return ("modified_vs_lmt", "t=%d the bundle reads modified=%d with last_modified_time %s" % (t, i["m"], i["lmt"])), stats
+    return None, stats
+
+
 class C04(CollProperty):
     id = "C04"
     composite_inv = True          # explicit invalidation also of bundles, lists, sets and dictionaries (flags only: C05 does not define their contents afterwards)
@@ -78,9 +159,42 @@ class C04(CollProperty):
 
     def gen(self, seed):
         rng = random.Random(seed)
+        if random.Random(seed ^ 0x1A7E).random() < 0.1:
+            return gen_late_bound(rng)
         return dict(sc=self.build(rng))
 
+    def run_late(self, case, fresh):
+        import ho
+        sc = ho.normalise(case["sc"])
+        text = ho.emit(sc)
+        res = runner.run_fresh(text, san=self.san) if fresh else runner.run(text, san=self.san)
+        pre = self.precheck(text, res)
+        if pre:
+            return pre
+        v, stats = check_late_bound(sc, res.events)
+        stats["cycles"] = sum(1 for e in res.events if e["k"] == "cyc" and e.get("g") == 0)
+        stats["simulated_time_us"] = sc["window"][1]
+        return Outcome(violation=dict(clause=v[0], detail=v[1]) if v else None, stats=stats, digest=res.digest, nontrivial=stats["probe_readings"] >= 3,
+                       sample=dict(scenario=text, log_head=res.raw[:1200]), shape=runner.h64(text))
+
+    def shrink(self, case):
+        if case.get("late"):
+            import copy
+            import ho
+            sc = ho.normalise(case["sc"])
+            for i, w in enumerate(sc["writers"]):
+                for off in sorted(w["script"]):
+                    if len(w["script"]) > 1:
+                        q = copy.deepcopy(sc)
+                        del q["writers"][i]["script"][off]
+                        yield dict(late=1, sc=q)
+            return
+        for q in coll.shrink(coll.normalise(case["sc"])):
+            yield dict(sc=q)
+
     def run(self, case, fresh=False):
+        if case.get("late"):
+            return self.run_late(case, fresh)
         sc = coll.normalise(case["sc"])
         text, res = self.execute(sc, fresh)
         pre = self.precheck(text, res)
